@@ -35,16 +35,16 @@ import (
 	"github.com/evmos/evmos/v16/x/evm/statedb"
 
 	assetsprecompile "github.com/ExocoreNetwork/exocore/precompiles/assets"
-	exotestutil "github.com/ExocoreNetwork/exocore/testutil"
 	avsprecompile "github.com/ExocoreNetwork/exocore/precompiles/avs"
 	delegationprecompile "github.com/ExocoreNetwork/exocore/precompiles/delegation"
+	exotestutil "github.com/ExocoreNetwork/exocore/testutil"
 	assetskeeper "github.com/ExocoreNetwork/exocore/x/assets/keeper"
 	assetstypes "github.com/ExocoreNetwork/exocore/x/assets/types"
 	avstypes "github.com/ExocoreNetwork/exocore/x/avs/types"
 	delegationkeeper "github.com/ExocoreNetwork/exocore/x/delegation/keeper"
 	delegationtypes "github.com/ExocoreNetwork/exocore/x/delegation/types"
-	distributiontypes "github.com/ExocoreNetwork/exocore/x/feedistribution/types"
 	epochstypes "github.com/ExocoreNetwork/exocore/x/epochs/types"
+	distributiontypes "github.com/ExocoreNetwork/exocore/x/feedistribution/types"
 	operatorkeeper "github.com/ExocoreNetwork/exocore/x/operator/keeper"
 	operatortypes "github.com/ExocoreNetwork/exocore/x/operator/types"
 	oracletypes "github.com/ExocoreNetwork/exocore/x/oracle/types"
@@ -253,9 +253,21 @@ type c09Env struct {
 	tokenSeq  int
 	chainSeq  uint32
 	usedSlash map[string]bool
+	avsOpt    c09AVSOpt
 	deposits  [][2][]byte // (asset, staker) pairs with a successful LST deposit
 	delegs    []c09Deleg
 }
+
+// forced choices for one doAVSx call (-1 / false = generator's own choice); reset after the call
+type c09AVSOpt struct {
+	op        int   // 0, 1 genesis operators, 2 an account that is no operator, 3 the zero address
+	sender    int   // 0 owner, 1 zero address, 2 an account that is not an owner
+	emptyName bool  // createTask / deregister with an empty name
+	wrongName bool  // deregister with another name
+	minSelf   int64 // registerAVS: minimum self delegation
+}
+
+var c09NoAVSOpt = c09AVSOpt{op: -1, sender: -1, minSelf: -1}
 
 type c09Deleg struct {
 	as, st []byte
@@ -782,6 +794,16 @@ func (c *c09Env) doAVSx(valid bool, force int, forceAI int, fault int) {
 			sender = c.env.AccAddrs[2]
 		}
 	}
+	opt := c.avsOpt
+	c.avsOpt = c09NoAVSOpt
+	switch opt.sender {
+	case 0:
+		sender = owner
+	case 1:
+		sender = common.Address{}
+	case 2:
+		sender = c.env.AccAddrs[2]
+	}
 	senderBech := sdk.AccAddress(sender.Bytes()).String()
 	info, ierr := app.AVSManagerKeeper.GetAVSInfo(ctx, avs.String())
 	exists := ierr == nil && info != nil && info.Info != nil
@@ -817,6 +839,9 @@ func (c *c09Env) doAVSx(valid bool, force int, forceAI int, fault int) {
 		unb := uint64(7)
 		if ai == 0 {
 			minSelf, epoch = 0, epochstypes.MinuteEpochID
+		}
+		if opt.minSelf >= 0 {
+			minSelf = uint64(opt.minSelf)
 		}
 		if !valid {
 			// a fresh AVS contract and task address: only the injected fault can make the registration fail
@@ -873,6 +898,15 @@ func (c *c09Env) doAVSx(valid bool, force int, forceAI int, fault int) {
 	case k < 4: // deregisterAVS
 		kind, method = "AvsDeregister", "deregisterAVS"
 		name := []string{"avs", "other", ""}[rng.Intn(3)]
+		if valid {
+			name = "avs"
+		}
+		if opt.emptyName {
+			name = ""
+		}
+		if opt.wrongName {
+			name = "other"
+		}
 		in = []interface{}{sender, name}
 		facts.setb("args.ok", sender != (common.Address{}) && name != "")
 		facts.setb("avs", exists)
@@ -901,6 +935,14 @@ func (c *c09Env) doAVSx(valid bool, force int, forceAI int, fault int) {
 			case 1:
 				opAddr = common.Address{}
 			}
+		}
+		switch opt.op {
+		case 0, 1:
+			opAddr = common.BytesToAddress(c.env.Operators[opt.op].Bytes())
+		case 2:
+			opAddr = c.env.AccAddrs[2]
+		case 3:
+			opAddr = common.Address{}
 		}
 		opAcc := sdk.AccAddress(opAddr.Bytes())
 		in = []interface{}{opAddr}
@@ -938,6 +980,9 @@ func (c *c09Env) doAVSx(valid bool, force int, forceAI int, fault int) {
 		name := []string{"task", ""}[rng.Intn(8)/7]
 		if valid {
 			name = "task"
+		}
+		if opt.emptyName {
+			name = ""
 		}
 		in = []interface{}{sender, name, []byte("hash"), uint64(2), uint64(2), uint64(60), uint64(1)}
 		ai := app.AVSManagerKeeper.GetAVSInfoByTaskAddress(ctx, task.String())
@@ -1433,13 +1478,15 @@ func runC09(a *Args) error {
 	// NST asset of client chain 101 (virtual address 0xee..ee), 18 decimals, as the gateway would register it
 	nstAddr := assetstypes.GenerateNSTAddr(20)
 	if err := env.App.AssetsKeeper.SetStakingAssetInfo(env.Ctx, &assetstypes.StakingAssetInfo{
-		AssetBasicInfo: assetstypes.AssetInfo{Name: "Native Restaking ETH", Symbol: "NSTETH", Address: hexutil.Encode(nstAddr), Decimals: 18, LayerZeroChainID: 101, MetaInfo: "nst"},
+		AssetBasicInfo:     assetstypes.AssetInfo{Name: "Native Restaking ETH", Symbol: "NSTETH", Address: hexutil.Encode(nstAddr), Decimals: 18, LayerZeroChainID: 101, MetaInfo: "nst"},
 		StakingTotalAmount: sdkmath.NewInt(0)}); err != nil {
 		return err
 	}
 	env.NextBlock(time.Second)
 
-	eth := func(n int64) *big.Int { return new(big.Int).Mul(big.NewInt(n), new(big.Int).Exp(big.NewInt(10), big.NewInt(18), nil)) }
+	eth := func(n int64) *big.Int {
+		return new(big.Int).Mul(big.NewInt(n), new(big.Int).Exp(big.NewInt(10), big.NewInt(18), nil))
+	}
 	pub := func(i int) []byte { return c09Pad32(seedBytes("c09pub", i)) }
 	gw := c.gateway
 	st0, st1, st2 := c09Pad32(c.stakers[0]), c09Pad32(c.stakers[1]), c09Pad32(c.stakers[2])
@@ -1562,21 +1609,73 @@ func runC09(a *Args) error {
 		c.doRegisterToken(nil, 101, gw, tk(12), 8, "SWEEP12", "meta", "SWEEP12,Ethereum,8,-3")
 		c.doRegisterToken(nil, 101, gw, tk(13), 18, "SWEEP13", "meta", "SWEEP13,NewChain,8,0,0xabc")
 	}
-	// (6) AVS life cycle through the AVS precompile: register, opt in twice (second one fails), voting power, task
-	c.doAVSx(true, 0, 0, -1)
-	c.doAVSx(true, 2, 0, -1)
-	c.doAVSx(true, 2, 0, -1)
-	c.doAVSx(true, 2, 0, -1)
-	func() {
-		defer func() { _ = recover() }()
-		_ = env.App.OperatorKeeper.UpdateVotingPower(env.Ctx, c09AVSContracts[0].String())
-	}()
-	c.doAVSx(true, 4, 0, -1)
+	// (6) AVS precompile, deterministic: life cycle + single-fault sweeps so that EVERY fallible check of registerAVS,
+	//     registerOperatorToAVS, deregisterOperatorFromAVS, createTask and deregisterAVS is the only failing one at
+	//     least once (valid arguments, exactly one fault), in particular the checks that FOLLOW a write or a counter
+	avsOpt := func(o c09AVSOpt) { c.avsOpt = o }
+	with := func(f func(o *c09AVSOpt)) c09AVSOpt { o := c09NoAVSOpt; f(&o); return o }
+	c.doAVSx(true, 0, 0, -1) // AVS 0 (min self delegation 0)
+	avsOpt(with(func(o *c09AVSOpt) { o.minSelf = 1_000_000_000 }))
+	c.doAVSx(true, 0, 2, -1) // AVS 2 with a minimum self delegation nobody meets
 	c.doAVSx(true, 0, 0, -1) // already registered
 	for f := 0; f < 9; f++ {
 		c.doAVSx(false, 0, 1, f) // one fault at a time on a fresh AVS contract
 	}
+	// createTask while the AVS has no voting power yet (AVS 0: operators not opted in; AVS 2: never)
+	c.doAVSx(true, 4, 0, -1)
+	c.doAVSx(true, 4, 2, -1)
+	// registerOperatorToAVS
+	avsOpt(with(func(o *c09AVSOpt) { o.op = 0 }))
+	c.doAVSx(true, 2, 0, -1) // operator 0 opts into AVS 0
+	avsOpt(with(func(o *c09AVSOpt) { o.op = 0 }))
+	c.doAVSx(true, 2, 0, -1) // already opted in
+	avsOpt(with(func(o *c09AVSOpt) { o.op = 1 }))
+	c.doAVSx(true, 2, 2, -1) // below the AVS's minimum self delegation
+	avsOpt(with(func(o *c09AVSOpt) { o.op = 2 }))
+	c.doAVSx(true, 2, 0, -1) // not an operator
+	avsOpt(with(func(o *c09AVSOpt) { o.op = 3 }))
+	c.doAVSx(true, 2, 0, -1) // zero address
+	avsOpt(with(func(o *c09AVSOpt) { o.op = 1 }))
+	c.doAVSx(true, 2, 5, -1) // AVS contract that is not registered
+	avsOpt(with(func(o *c09AVSOpt) { o.op = 1 }))
+	c.doAVSx(true, 2, 0, -1) // operator 1 opts into AVS 0
+	func() {
+		defer func() { _ = recover() }()
+		_ = env.App.OperatorKeeper.UpdateVotingPower(env.Ctx, c09AVSContracts[0].String())
+	}()
+	// createTask: every check alone, then a valid one
+	avsOpt(with(func(o *c09AVSOpt) { o.sender = 1 }))
+	c.doAVSx(true, 4, 0, -1) // zero sender
+	avsOpt(with(func(o *c09AVSOpt) { o.emptyName = true }))
+	c.doAVSx(true, 4, 0, -1) // empty task name
+	avsOpt(with(func(o *c09AVSOpt) { o.sender = 2 }))
+	c.doAVSx(true, 4, 0, -1) // sender is not an owner of the AVS
+	c.doAVSx(true, 4, 5, -1) // the calling contract is no AVS's task address
+	c.doAVSx(true, 4, 2, -1) // AVS without voting power
+	c.doAVSx(true, 4, 0, -1) // valid
+	c.doAVSx(true, 4, 0, -1) // valid again (next task id)
+	// deregisterOperatorFromAVS
+	avsOpt(with(func(o *c09AVSOpt) { o.op = 3 }))
 	c.doAVSx(true, 3, 0, -1)
+	avsOpt(with(func(o *c09AVSOpt) { o.op = 2 }))
+	c.doAVSx(true, 3, 0, -1)
+	avsOpt(with(func(o *c09AVSOpt) { o.op = 1 }))
+	c.doAVSx(true, 3, 2, -1) // not opted into AVS 2
+	avsOpt(with(func(o *c09AVSOpt) { o.op = 1 }))
+	c.doAVSx(true, 3, 5, -1) // unregistered AVS
+	avsOpt(with(func(o *c09AVSOpt) { o.op = 1 }))
+	c.doAVSx(true, 3, 0, -1) // valid
+	// deregisterAVS
+	avsOpt(with(func(o *c09AVSOpt) { o.sender = 1 }))
+	c.doAVSx(true, 1, 2, -1)
+	avsOpt(with(func(o *c09AVSOpt) { o.emptyName = true }))
+	c.doAVSx(true, 1, 2, -1)
+	avsOpt(with(func(o *c09AVSOpt) { o.sender = 2 }))
+	c.doAVSx(true, 1, 2, -1)
+	avsOpt(with(func(o *c09AVSOpt) { o.wrongName = true }))
+	c.doAVSx(true, 1, 2, -1)
+	c.doAVSx(true, 1, 5, -1) // unregistered AVS
+	c.doAVSx(true, 1, 2, -1) // valid
 
 	// ---- random stream ----
 	for c.nCase < a.N {
